@@ -49,6 +49,14 @@ type rollCfg struct {
 	variant  string
 	openOnly bool            // only file creations may fail
 	lands    []time.Duration // where in the next interval a clock tick may land (default: 1ms after the boundary)
+	interval time.Duration   // rotation interval (default: one hour)
+}
+
+func (c rollCfg) iv() time.Duration {
+	if c.interval > 0 {
+		return c.interval
+	}
+	return time.Hour
 }
 
 type rollObs struct {
@@ -77,6 +85,9 @@ func (c rollCfg) name() string {
 	if c.variant != "" {
 		s += "/" + c.variant
 	}
+	if c.interval > 0 {
+		s += "/every-" + c.interval.String()
+	}
 	return s
 }
 
@@ -90,7 +101,7 @@ func (c rollCfg) run(o *rollObs) {
 	if c.openOnly {
 		x.FS.FaultOps = map[string]bool{"open": true}
 	}
-	a := &log.RollingFileAppender{FileDir: rollDir, FileName: rollName, Rotation: log.TimeRotation{Interval: time.Hour}, MaxAge: c.maxAge}
+	a := &log.RollingFileAppender{FileDir: rollDir, FileName: rollName, Rotation: log.TimeRotation{Interval: c.iv()}, MaxAge: c.maxAge}
 	zzvrt.Atomic(func() {
 		x.FS.MkdirAll(rollDir)
 		if c.preExist {
@@ -214,7 +225,7 @@ func rollCheck(prop string, c rollCfg, o *rollObs, x *zzvrt.Exec) (string, []zzv
 						}
 						tp, _ := time.ParseInLocation("20060102150405", mp[1], time.UTC)
 						tq, _ := time.ParseInLocation("20060102150405", mq[1], time.UTC)
-						return tq.Truncate(time.Hour).Sub(tp.Truncate(time.Hour)) >= 2*time.Hour
+						return tq.Truncate(c.iv()).Sub(tp.Truncate(c.iv())) >= 2*c.iv()
 					}
 				}
 				return false
@@ -287,7 +298,7 @@ func rollCheck(prop string, c rollCfg, o *rollObs, x *zzvrt.Exec) (string, []zzv
 			if w.endAt.Before(ft) {
 				add("C13", "file-from-the-future", k, fmt.Sprintf("write %q completed at %s but is in %s", w.id, w.endAt.Format("150405"), locs[0]))
 			}
-			if len(c.writers) == 1 && !faulted && ft.Truncate(time.Hour).Before(w.startAt.Truncate(time.Hour)) {
+			if len(c.writers) == 1 && !faulted && ft.Truncate(c.iv()).Before(w.startAt.Truncate(c.iv())) {
 				add("C13", "stale-file", k, fmt.Sprintf("single writer: write %q issued at %s landed in %s (an earlier interval)", w.id, w.startAt.Format("150405"), locs[0]))
 			}
 		}
@@ -325,7 +336,7 @@ func rollCheck(prop string, c rollCfg, o *rollObs, x *zzvrt.Exec) (string, []zzv
 	// C19: after a failed creation the appender keeps writing to the file it has, and retries at
 	// the next boundary (checked on the call log)
 	if faulted {
-		v = append(v, c19Check(prop, key, len(c.writers) == 1, o, x, where)...)
+		v = append(v, c19Check(prop, key, len(c.writers) == 1, c.iv(), o, x, where)...)
 	}
 	if c.conform {
 		if theConformer == nil {
@@ -345,7 +356,7 @@ func rollCheck(prop string, c rollCfg, o *rollObs, x *zzvrt.Exec) (string, []zzv
 }
 
 // c19Check: fault-specific clauses.
-func c19Check(prop, key string, single bool, o *rollObs, x *zzvrt.Exec, where map[string][]string) []zzvrt.Violation {
+func c19Check(prop, key string, single bool, ivl time.Duration, o *rollObs, x *zzvrt.Exec, where map[string][]string) []zzvrt.Violation {
 	if prop != "C19" {
 		return nil
 	}
@@ -378,9 +389,9 @@ func c19Check(prop, key string, single bool, o *rollObs, x *zzvrt.Exec, where ma
 			if call.Op != "open" || !strings.Contains(call.Err, "injected") {
 				continue
 			}
-			iv := call.At.Truncate(time.Hour)
+			iv := call.At.Truncate(ivl)
 			for _, w := range o.writes {
-				if w.startStep <= call.Step || !w.startAt.Truncate(time.Hour).After(iv) {
+				if w.startStep <= call.Step || !w.startAt.Truncate(ivl).After(iv) {
 					continue
 				}
 				retried := false
@@ -409,7 +420,7 @@ func rollScenario(prop string, c rollCfg, b zzvrt.Bounds) *zzvrt.Scenario {
 	return &zzvrt.Scenario{
 		Before: func() { resetAll(); o = rollObs{} },
 		Body:   func() { c.run(&o) },
-		Opts:   zzvrt.RunOpts{Bounds: b, Start: rollStart, TickStep: time.Hour, TickLands: c.lands},
+		Opts:   zzvrt.RunOpts{Bounds: b, Start: rollStart, TickStep: c.iv(), TickLands: c.lands},
 		Check:  func(x *zzvrt.Exec) (string, []zzvrt.Violation) { return rollCheck(prop, c, &o, x) },
 	}
 }
@@ -457,6 +468,16 @@ func init() {
 	reg("C19", rollCfg{writers: [][]string{{"a0", "a1", "a2"}}}, "qt", bb{1, 3, 2}, bb{2, 3, 2})
 	reg("C19", rollCfg{writers: [][]string{{"a0", "a1", "a2"}}, variant: "3-faults"}, "t", bb{1, 2, 3}, bb{1, 2, 3})
 	reg("C19", rollCfg{writers: [][]string{{"a0", "a1"}, {"b0", "b1"}}}, "qt", bb{1, 2, 2}, bb{2, 2, 2})
+	// C19: a long outage - up to 4 (thorough 5) consecutive boundaries at which the creation fails, one writer,
+	// short and long intervals, the clock landing exactly on / just after a boundary or in mid-interval: a new
+	// creation is attempted at EVERY later boundary, however many attempts have failed before (a back-off that
+	// outgrows the interval skips one)
+	for _, ivl := range []time.Duration{time.Second, time.Minute, time.Hour} {
+		reg("C19", rollCfg{writers: [][]string{{"a0", "a1", "a2", "a3", "a4"}}, openOnly: true, interval: ivl,
+			lands: []time.Duration{0, time.Millisecond}, variant: "long-outage"}, "qt", bb{0, 5, 4}, bb{0, 5, 5})
+		reg("C19", rollCfg{writers: [][]string{{"a0", "a1", "a2", "a3", "a4", "a5", "a6"}}, openOnly: true, interval: ivl,
+			lands: []time.Duration{0, time.Millisecond, ivl / 2}, variant: "long-outage"}, "t", bb{0, 6, 5}, bb{0, 6, 5})
+	}
 }
 
 var _ = sort.Strings
